@@ -37,6 +37,10 @@ pub struct LifeCfg {
     pub o_dense: bool,
     pub o_positions: bool,
     pub o_owned_laws: bool,
+    /// exact reference storage model: predicted indices and exact used bytes per storage (C11, C18)
+    pub o_model: bool,
+    /// C15: ==, partial_cmp, cmp between all pairs/triples of read items
+    pub o_order: bool,
     /// deviation script: horizon value pattern
     pub script: u8,
     /// drop values containing non-finite floats (JSON cannot carry them: a limit of the text
@@ -62,6 +66,8 @@ impl LifeCfg {
             o_dense: false,
             o_positions: false,
             o_owned_laws: false,
+            o_model: false,
+            o_order: false,
             script: 0,
             finite_only: false,
         }
@@ -94,6 +100,7 @@ pub struct LifeMachine<S: Spec> {
     a: Side<S>,
     twin: Option<Side<S>>,
     count: usize,
+    m: S::M,
     tags: Vec<String>,
 }
 
@@ -168,8 +175,68 @@ impl<S: Spec> LifeMachine<S> {
             a: Side { r: Default::default(), issued: vec![] },
             twin,
             count: 0,
+            m: Default::default(),
             tags: vec![],
         }
+    }
+
+    fn sibling_model(&self, which: u8) -> S::M {
+        let mut m = S::M::default();
+        match which {
+            0 => {}
+            _ => {
+                for v in self.values.iter().take(2) {
+                    S::m_push(&mut m, v);
+                }
+            }
+        }
+        m
+    }
+
+    /// C18 / C11: heap_size against the exact reference layout.
+    fn check_model(&self, what: &str, before: &Option<Vec<(usize, usize)>>, was_clear: bool, was_push: bool) -> Result<(), String> {
+        if !(self.cfg.o_model && self.e.has_heap) {
+            return Ok(());
+        }
+        let Some(h) = self.heap(&self.a.r) else { return Ok(()) };
+        for (i, (u, c)) in h.iter().enumerate() {
+            if u > c {
+                return Err(format!("after {what}: heap_size pair #{i} reports used {u} > capacity {c} ({h:?})"));
+            }
+        }
+        if let Some(b) = before {
+            if was_push && h.iter().map(|x| x.0).sum::<usize>() < b.iter().map(|x| x.0).sum::<usize>() {
+                return Err(format!("after {what}: total used bytes decreased on push: {b:?} -> {h:?}"));
+            }
+            if was_clear && b.len() == h.len() {
+                for (i, (x, y)) in b.iter().zip(&h).enumerate() {
+                    if y.1 < x.1 {
+                        return Err(format!("after clear(): reported capacity #{i} shrank from {} to {} ({b:?} -> {h:?})", x.1, y.1));
+                    }
+                }
+            }
+        }
+        if S::MODELLED {
+            let mut layout = Vec::new();
+            S::m_layout(&self.m, &mut layout);
+            let used: Vec<usize> = h.iter().map(|x| x.0).collect();
+            let want: Vec<usize> = layout.iter().map(|s| s.used).collect();
+            if used.len() != want.len() {
+                return Err(format!(
+                    "after {what}: heap_size makes {} callbacks, the composition has {} storages ({:?}); reported {h:?}",
+                    used.len(),
+                    want.len(),
+                    layout.iter().map(|s| s.kind).collect::<Vec<_>>()
+                ));
+            }
+            if used != want {
+                return Err(format!(
+                    "after {what}: used bytes per storage {used:?} differ from the reference model {want:?} (kinds {:?})",
+                    layout.iter().map(|s| s.kind).collect::<Vec<_>>()
+                ));
+            }
+        }
+        Ok(())
     }
 
     fn initial_twin(cfg: &LifeCfg) -> Option<Side<S>> {
@@ -285,6 +352,18 @@ impl<S: Spec> LifeMachine<S> {
             }
         }
         self.count += 1;
+        if self.cfg.o_model && S::MODELLED {
+            let want = S::m_push(&mut self.m, &v);
+            if let Some(w) = want.render() {
+                if w != idx_str(&idx) {
+                    return Step::Violation(format!(
+                        "push({}) as {fname} returned index {}, the reference model gives {w}",
+                        S::show(&v),
+                        idx_str(&idx)
+                    ));
+                }
+            }
+        }
         if let Some((prev, _)) = self.a.issued.last() {
             if idx_str(prev) == idx_str(&idx) {
                 self.tags.push("push:same-index-as-previous".into());
@@ -378,6 +457,7 @@ impl<S: Spec> Machine for LifeMachine<S> {
         self.a = Side { r: Default::default(), issued: vec![] };
         self.twin = Self::initial_twin(&self.cfg);
         self.count = 0;
+        self.m = Default::default();
         self.tags.clear();
     }
     fn enabled(&self) -> Vec<OpId> {
@@ -408,6 +488,8 @@ impl<S: Spec> Machine for LifeMachine<S> {
     fn step(&mut self, op: OpId) -> Step {
         let def = self.ops[op as usize].clone();
         let what = self.describe(op);
+        let before = if self.cfg.o_model { self.heap(&self.a.r) } else { None };
+        let (was_clear, was_push) = (matches!(def, OpDef::Clear), matches!(def, OpDef::Push { .. }));
         match def {
             OpDef::Push { val, form } => {
                 match self.do_push(val, form) {
@@ -422,6 +504,7 @@ impl<S: Spec> Machine for LifeMachine<S> {
                 }
                 self.a.issued.clear();
                 self.count = 0;
+                S::m_clear(&mut self.m);
                 match self.cfg.twin {
                     Twin::FreshAtClear => self.twin = Some(Side { r: Default::default(), issued: vec![] }),
                     _ => {
@@ -474,6 +557,19 @@ impl<S: Spec> Machine for LifeMachine<S> {
                     3 => S::R::merge_regions([a, &sib].into_iter()),
                     _ => S::R::merge_regions(std::iter::once(&empty)),
                 });
+                {
+                    let sm = self.sibling_model(1);
+                    let em = self.sibling_model(0);
+                    let srcs_m: Vec<&S::M> = match srcs {
+                        0 => vec![],
+                        1 => vec![&self.m],
+                        2 => vec![&sm],
+                        3 => vec![&self.m, &sm],
+                        _ => vec![&em],
+                    };
+                    let nm = S::m_merged(&srcs_m);
+                    self.m = nm;
+                }
                 match merged {
                     Ok(m) => self.a = Side { r: m, issued: vec![] },
                     Err(p) if self.e.zst && p.contains("capacity overflow") => return Step::Refused(p),
@@ -546,6 +642,9 @@ impl<S: Spec> Machine for LifeMachine<S> {
                 }
             }
         }
+        if let Err(e) = self.check_model(&what, &before, was_clear, was_push) {
+            return Step::Violation(e);
+        }
         self.after(&what)
     }
     fn fingerprint(&self) -> Option<String> {
@@ -587,6 +686,9 @@ impl<S: Spec> Machine for LifeMachine<S> {
         if self.cfg.o_owned_laws {
             self.owned_laws()?;
         }
+        if self.cfg.o_order {
+            self.order_laws()?;
+        }
         Ok(())
     }
     fn drain_tags(&mut self) -> Vec<String> {
@@ -619,6 +721,78 @@ impl<S: Spec> Machine for LifeMachine<S> {
 }
 
 impl<S: Spec> LifeMachine<S> {
+    /// C15: equality and ordering of read items coincide with those of the owned values, for items
+    /// of this region, of an independently built region, and owned-borrowed items.
+    fn order_laws(&mut self) -> Result<(), String> {
+        use std::cmp::Ordering;
+        let (Some(cmp), Some(vcmp)) = (self.e.cmp, self.e.vcmp) else { return Ok(()) };
+        // an independently built second region: a dummy item first, then the same values reversed
+        let mut b: S::R = Default::default();
+        let _ = S::canon_push(&mut b, &self.values[self.values.len() - 1]);
+        let mut b_issued = Vec::new();
+        for (_, val) in self.a.issued.iter().rev() {
+            b_issued.push((S::canon_push(&mut b, &self.values[*val]), *val));
+        }
+        let ra = &self.a.r;
+        let rb = &b;
+        let mut pool: Vec<(RI<'_, S>, usize, &str)> = Vec::new();
+        for (idx, val) in &self.a.issued {
+            pool.push((ra.index(*idx), *val, "this region"));
+        }
+        for (idx, val) in &b_issued {
+            pool.push((rb.index(*idx), *val, "another region"));
+        }
+        for (i, v) in self.values.iter().enumerate() {
+            pool.push((<RI<'_, S> as IntoOwned>::borrow_as(v), i, "borrowed from owned"));
+        }
+        let n = pool.len();
+        let mut table = vec![Ordering::Equal; n * n];
+        for i in 0..n {
+            for j in 0..n {
+                let (x, y) = (&pool[i], &pool[j]);
+                let want = vcmp(&self.values[x.1], &self.values[y.1]);
+                let got = guard(|| cmp(&x.0, &y.0)).map_err(|p| format!("comparing read items panicked: {p}"))?;
+                let ctx = || {
+                    format!(
+                        "x = {} ({}), y = {} ({})",
+                        S::show(&self.values[x.1]),
+                        x.2,
+                        S::show(&self.values[y.1]),
+                        y.2
+                    )
+                };
+                if got.0 != (want == Ordering::Equal) {
+                    return Err(format!("x == y is {} but the owned values compare {:?}; {}", got.0, want, ctx()));
+                }
+                if got.1 != Some(want) {
+                    return Err(format!("x.partial_cmp(y) = {:?}, owned values compare {:?}; {}", got.1, want, ctx()));
+                }
+                if got.2 != want {
+                    return Err(format!("x.cmp(y) = {:?}, owned values compare {:?}; {}", got.2, want, ctx()));
+                }
+                table[i * n + j] = got.2;
+            }
+        }
+        // total order laws on what was observed
+        for i in 0..n {
+            if table[i * n + i] != Ordering::Equal {
+                return Err("cmp is not reflexive".into());
+            }
+            for j in 0..n {
+                if table[i * n + j] != table[j * n + i].reverse() {
+                    return Err("cmp is not antisymmetric".into());
+                }
+                for k in 0..n {
+                    if table[i * n + j] != Ordering::Greater && table[j * n + k] != Ordering::Greater && table[i * n + k] == Ordering::Greater {
+                        return Err("cmp is not transitive".into());
+                    }
+                }
+            }
+        }
+        self.tags.push(format!("ordered-pool:{}", n.min(12)));
+        Ok(())
+    }
+
     /// C14: IntoOwned laws for every issued item (region-to-region copies are checked by the
     /// read-item input forms of C01/C20).
     fn owned_laws(&mut self) -> Result<(), String> {
